@@ -19,6 +19,9 @@ integers (WMean; the synthetic family goes through Mean AND WMean, which must ag
 + translation: the exact mean moves exactly, the stored positions within 2e-6 A) and ONE DoAverageBead object over the real
 systems of force fields with and without a centre weight.  Workers run AND judge their share and return summaries."""
 import itertools
+import os
+import json
+import shutil
 import multiprocessing as mp
 import random
 
@@ -165,7 +168,8 @@ def run(tier, seed, ev, vd):
     real_cases = c09_real.plan(tier, seed)
     procs, queue = c09_real.start_workers(real_cases, tlc.NCPU)
     try:
-        _run_synthetic(tier, seed, ev, vd)
+        if os.environ.get('C09_ONLY') != 'real':          # debugging / mutation testing: the real-data families alone
+            _run_synthetic(tier, seed, ev, vd)
         summaries = c09_real.collect_workers(procs, queue, 600 if quick else 3000)
     finally:
         for p in procs:
@@ -271,8 +275,22 @@ def _run_synthetic(tier, seed, ev, vd):
 
 
 def replay(sc):
-    print(sc)
-    return 0
+    """Re-run the case of a recorded violation and print every verdict that is not ok."""
+    print(json.dumps(common.jsonable(sc))[:3000])
+    case = sc.get('case') if isinstance(sc, dict) else None
+    if not isinstance(case, dict) or 'input' not in case:
+        return 0
+    from . import c11_stages
+    c11_stages.preload()
+    events, notes = c09_real.run_case(case, tlc.scratch('c09rp_'))
+    for f in notes['failed']:
+        print('command failed:', f['run'], f['what'])
+    _d, _g, verdicts = c09_real.judge(events)
+    bad = [(e.get('label'), e['scenario']['run'], v) for e, v in zip(events, verdicts) if v != 'ok']
+    for b in bad[:40]:
+        print('rejected:', b)
+    print('%d events, %d rejected' % (len(events), len(bad)))
+    return 1 if bad or notes['failed'] else 0
 
 
 def selftest(seed):
@@ -285,4 +303,70 @@ def selftest(seed):
     outs = _judge([events[0], bad, bad2])[2]
     assert outs[1] == 'ok' and outs[2] != 'ok' and outs[3] != 'ok', outs
     print('selftest C09: tampered particles rejected:', outs[2], '/', outs[3])
+    # ---- real data: particles of real martinize2 runs, tampered field by field
+    from . import c11_stages
+    c11_stages.preload()
+    cases = {c['id']: c for c in c09_real.plan('quick', seed)}
+    work = tlc.scratch('c09st_')
+    ev = []
+    for cid in ('el22-dipro-drop', 'm3-go', 'm22p-sheet-noh'):
+        got, notes = c09_real.run_case(cases[cid], work)
+        assert got and not notes['failed'] and not notes['harness'], (cid, notes)
+        ev += got
+    beads = [e for e in ev if e['kind'] == 'bead' and e['role'] == 'mapped']
+
+    def pick(pred, what):
+        for e in beads:
+            if pred(e):
+                return copy.deepcopy(e)
+        raise tlc.MachineryError('selftest C09: no real particle with ' + what)
+    positioned = lambda e: sum(1 for c in e['cons'] if c['has'] and c['w'] > 0)      # noqa
+    tests = []
+    e = pick(lambda e: not e['isnan'] and positioned(e) >= 2 and not e['dummy'], 'two weighted constituents')
+    tests.append(('untouched', copy.deepcopy(e), 'ok'))
+    t = copy.deepcopy(e); t['pf'][0] += 3
+    tests.append(('stored position moved by 3e-6 A', t, 'not-the-weighted-mean'))
+    t = copy.deepcopy(e); t['wr'][1] += 1
+    tests.append(('written coordinate off by 0.001 A', t, 'written-coordinate-is-not-the-stored-one-rounded'))
+    t = copy.deepcopy(e); t['isnan'] = True
+    tests.append(('position reported undefined', t, 'position-undefined-although-weights-do-not-sum-to-zero'))
+    t = copy.deepcopy(e); t['haswr'] = False
+    tests.append(('particle not in cg.pdb', t, 'particle-missing-from-the-written-structure'))
+    e = pick(lambda e: not e['isnan'] and any(c['has'] and c['hasw'] and c['w'] == 0 for c in e['cons']) and positioned(e) >= 1,
+             'a null-weight constituent')
+    t = copy.deepcopy(e)
+    for c in t['cons']:
+        if c['w'] == 0:
+            c['w'] = 1
+    tests.append(('null weights counted as 1', t, 'not-the-weighted-mean'))
+    e = pick(lambda e: not e['isnan'] and any(not c['has'] and c['w'] > 0 for c in e['cons']), 'an unpositioned constituent')
+    t = copy.deepcopy(e)
+    for c in t['cons']:
+        c['has'] = True
+    tests.append(('atoms without coordinates counted at the origin', t, 'not-the-weighted-mean'))
+    e = pick(lambda e: not e['isnan'] and e['cwon'] and len({c['cw'] for c in e['cons'] if c['has'] and c['w'] > 0}) > 1, 'unequal masses')
+    t = copy.deepcopy(e); t['cwon'] = False
+    tests.append(('centre weight ignored', t, 'not-the-weighted-mean'))
+    e = pick(lambda e: e['isnan'] and not e['dummy'] or (e['isnan'] and e['dummy']), 'an undefined position')
+    t = copy.deepcopy(e); t['isnan'] = False
+    tests.append(('undefined position reported as the origin', t, 'position-defined-although-weights-sum-to-zero'))
+    e = pick(lambda e: e['dummy'] and e['haswr'] and not e['wrnan'], 'a charge dummy')
+    tests.append(('charge dummy: written coordinate exempt (named rule)', copy.deepcopy(e), 'ok'))
+    t = copy.deepcopy(e); t['dummy'] = False
+    tests.append(('the same particle without the exemption', t, 'written-coordinate-defined-for-an-undefined-position'))
+    site = copy.deepcopy(next(x for x in ev if x['kind'] == 'bead' and x['role'] == 'site'))
+    tests.append(('virtual site untouched', copy.deepcopy(site), 'ok'))
+    site['pf'][2] += 1
+    tests.append(('virtual site 1e-6 A off its backbone particle', site, 'virtual-site-not-on-its-backbone-particle'))
+    pair = copy.deepcopy(next(x for x in ev if x['kind'] == 'pair' and not x['a']['isnan']))
+    tests.append(('pair untouched', copy.deepcopy(pair), 'ok'))
+    t = copy.deepcopy(pair); t['b']['pf'][0] += 4
+    tests.append(('moved run: particle 4e-6 A off', t, 'position-does-not-follow-the-rigid-motion'))
+    t = copy.deepcopy(pair); t['m'] = dict(t['m'], sh=[t['m']['sh'][0] + 1] + t['m']['sh'][1:])
+    tests.append(('pair judged under another motion', t, 'unjudged:constituents-are-not-the-moved-ones'))
+    _d, _g, verdicts = c09_real.judge([t for _n, t, _w in tests])
+    for (name, _t, want), got in zip(tests, verdicts):
+        assert got == want, ('selftest C09 real', name, want, got)
+        print('selftest C09 real: %-55s -> %s' % (name, got))
+    shutil.rmtree(work, ignore_errors=True)
     return 0
